@@ -53,7 +53,9 @@ def ref_parse(toks: list[str], table):
                 lhs = ("in", t, lhs, expr(p * 2 - 1 if right else p * 2))
         return lhs
 
-    tree = expr(0)
+    # python-pest's precedences are plain ints supplied by the user and parse_expr's default min_prec is 0,
+    # so level 0 is a legal (lowest) level: the top-level call must bind it too
+    tree = expr(-1)
     return tree, i == len(toks)
 
 
@@ -208,7 +210,10 @@ def gen_table(rnd: random.Random, small: bool):
     npre = rnd.randint(0, 2 if small else 4)
     npost = rnd.randint(0, 2 if small else 3)
     ninf = rnd.randint(1, 3 if small else 6)
-    levels = rnd.sample(range(1, 16), npre + npost + ninf)
+    levels = rnd.sample(range(0, 16), npre + npost + ninf)
+    if rnd.random() < 0.25:
+        # make sure the lowest legal level 0 is used by some operator kind
+        levels[rnd.randrange(len(levels))] = 0 if 0 not in levels else levels[0]
     pre = {f"p{j}": levels[j] for j in range(npre)}
     post = {f"q{j}": levels[npre + j] for j in range(npost)}
     inf = {}
@@ -350,3 +355,5 @@ def selftest() -> None:
     low = ({"neg": 6}, {"pow": (8, True)}, {"fac": 3})
     assert ref_parse(["neg", "x", "fac"], low)[0] == ("post", "fac", ("pre", "neg", "x"))
     assert validate_tree(("pre", "neg", ("post", "fac", "x")), ["neg", "x", "fac"], low)
+    zero = ({}, {"add": (1, False)}, {"opt": 0})
+    assert ref_parse(["a", "add", "b", "opt"], zero) == (("post", "opt", ("in", "add", "a", "b")), True)
